@@ -441,6 +441,12 @@ def _gen_cases(rng: Rng, tier):
         for a, b, x, y in rng.sample(combos, min(len(combos), 14 if tier == "quick" else 150)):
             yield dict(kind="shared", subject=kind, seed=seeds[0], a=[a[1], a[2], x], b=[b[1], b[2], y])
     yield from gen_estimator_cases(rng, tier)
+    # a REFIT that fails (every naturally rejected configuration, every internal step made to fail in turn) must leave
+    # an already fitted estimator as it was; the container constructors must copy the builtin container they are given
+    for est in ("ufpca_cov", "ufpca_inpro", "mfpca_cov", "mfpca_inpro", "fcptpa", "psplines1", "psplines2"):
+        yield dict(kind="refit", est=est, seed=seeds[0], n_faults=14 if tier == "quick" else 60)
+    for ctor in CONSTRUCTORS:
+        yield dict(kind="ctor", ctor=ctor, seed=seeds[0])
 
 
 def gen_estimator_cases(rng: Rng, tier):
@@ -752,6 +758,253 @@ def _shared(case):
             if d:
                 viol.append(_viol("repeatable", entry, f"{mb} on the {xb} after {ma} on the {xa} differs from the same call on fresh objects at {d[:3]}", ["state_leak", "shared_cells"]))
     return dict(status_a="ok" if exc_a is None else "error:" + err_class(exc_a), status_b="ok" if exc_b is None else "error:" + err_class(exc_b), viol=viol)
+
+
+# ---- container constructors ---------------------------------------------------
+
+CONSTRUCTORS = ["MultivariateFunctionalData(list)", "DenseArgvals(dict)", "IrregularArgvals(dict)", "IrregularValues(dict)"]
+
+
+def _ctor_parts(ctor, seed):
+    """(builtin container the harness keeps, constructor, an extra item that may legally be added)"""
+    from FDApy.representation.argvals import DenseArgvals, IrregularArgvals
+    from FDApy.representation.functional_data import MultivariateFunctionalData
+    from FDApy.representation.values import IrregularValues
+
+    if ctor == "MultivariateFunctionalData(list)":
+        comps = list(make_subject("multivariate3", seed).data)
+        return comps[:2], MultivariateFunctionalData, ("append", comps[2])
+    if ctor == "DenseArgvals(dict)":
+        return {"input_dim_0": np.linspace(0, 1, 4), "input_dim_1": np.linspace(0, 2, 3)}, DenseArgvals, ("set", "input_dim_2", np.linspace(0, 1, 2))
+    irr = make_subject("irregular", seed)
+    if ctor == "IrregularArgvals(dict)":
+        return dict(irr.argvals.items()), IrregularArgvals, ("set", 9, DenseArgvals({"input_dim_0": np.linspace(0, 1, 3)}))
+    return dict(irr.values.items()), IrregularValues, ("set", 9, np.zeros(3))
+
+
+def _edit(container, extra):
+    """what an owner may do to a list / dict (or to an object built from one)"""
+    if extra[0] == "append":
+        container.append(extra[1])
+        container.reverse()
+        container.pop(0)
+    else:
+        container[extra[1]] = extra[2]
+        k = next(iter(container.keys()))
+        del container[k]
+
+
+def _ctor(case):
+    """`X = C(builtin)`: edits of the object must not reach the builtin container the caller keeps, edits of that
+    container must not reach the object."""
+    ctor, seed = case["ctor"], case["seed"]
+    viol = []
+    entry = ctor.split("(")[0] + ".__init__"
+    for direction in ("object", "container"):
+        raw, C, extra = _ctor_parts(ctor, seed)
+        try:
+            obj = C(raw)
+        except Exception as e:  # noqa: BLE001
+            return dict(status="error:" + err_class(e), viol=viol)
+        if obj is raw or getattr(obj, "data", None) is raw:
+            viol.append(_viol("result_independent", entry, f"the object built by {ctor} keeps the caller's {type(raw).__name__} itself as its container", ["result_is_input", "constructor"]))
+        snap_raw, snap_obj = U.deep(raw), U.deep(obj)
+        try:
+            _edit(obj if direction == "object" else raw, extra)
+        except Exception as e:  # noqa: BLE001
+            viol.append(_viol("runs", entry, f"editing the {direction} raised {err_class(e)}: {str(e)[:80]}"))
+            continue
+        other_changed = U.diff_paths(snap_raw, U.deep(raw)) if direction == "object" else U.diff_paths(snap_obj, U.deep(obj))
+        if other_changed:
+            what = (f"editing the object (append / reverse / pop, item assignment / deletion) changed the {type(raw).__name__} it was built from" if direction == "object"
+                    else f"editing the {type(raw).__name__} the object was built from changed the object")
+            viol.append(_viol("result_independent", entry, f"{ctor}: {what} at {other_changed[:3]}", ["input_reached_through_result", "constructor"]))
+    return dict(status="ok", viol=_dedupe(viol))
+
+
+# ---- failed refits ------------------------------------------------------------
+
+class _Injected(Exception):
+    pass
+
+
+class _FaultPatch:
+    """Make the k-th internal call of a fit fail: every FDApy function visible in the estimator's module (its own helpers
+    and the imported ones) and the analysis methods of the data classes are wrapped from outside."""
+
+    METHODS = ["mean", "center", "rescale", "noise_variance", "covariance", "inner_product", "smooth", "norm", "to_grid", "to_basis", "standardize", "normalize"]
+
+    def __init__(self, est_obj, fail_at=None):
+        self.mod = inspect.getmodule(type(est_obj))
+        self.fail_at, self.n, self.labels, self.saved = fail_at, 0, [], []
+
+    def _wrap(self, fn, label):
+        def w(*a, **k):
+            self.labels.append(label)
+            i = self.n
+            self.n += 1
+            if self.fail_at is not None and i == self.fail_at:
+                raise _Injected(label)
+            return fn(*a, **k)
+
+        return w
+
+    def __enter__(self):
+        import FDApy.representation.functional_data as fd
+
+        for name, f in list(vars(self.mod).items()):
+            if inspect.isfunction(f) and (getattr(f, "__module__", "") or "").startswith("FDApy"):
+                self.saved.append((self.mod, name, f))
+                setattr(self.mod, name, self._wrap(f, name))
+        for cls in (fd.DenseFunctionalData, fd.IrregularFunctionalData, fd.BasisFunctionalData, fd.MultivariateFunctionalData):
+            for m in self.METHODS:
+                f = cls.__dict__.get(m)
+                if inspect.isfunction(f):
+                    self.saved.append((cls, m, f))
+                    setattr(cls, m, self._wrap(f, f"{cls.__name__}.{m}"))
+        return self
+
+    def __exit__(self, *exc):
+        for owner, name, f in reversed(self.saved):
+            setattr(owner, name, f)
+        return False
+
+
+def _state_of(e, skip=()):
+    return _nocache(U.deep({k: v for k, v in e.__dict__.items() if k not in skip}, skip_cache=False))
+
+
+def _apply_results(e, ctx, steps):
+    out, scores = [], None
+    for name, f in steps[1:]:
+        base = name.split("|")[0]
+        np.random.seed(777)
+        c = dict(ctx)
+        c["scores"] = scores
+        try:
+            r = f(e, c)
+            out.append((name, U.deep(r, skip_cache=True)))
+            if base == "transform" and scores is None:
+                scores = np.array(r, copy=True)
+        except Exception as ex:  # noqa: BLE001
+            out.append((name, "error:" + err_class(ex)))
+    return out
+
+
+def _rejections(est, e, ctx2):
+    """naturally rejected refits: (label, attribute overrides on the estimator, overrides of the fit context, extra kwargs)"""
+    out = []
+    if hasattr(e, "method"):
+        out.append(("invalid method", {"method": "no-such-method"}, {}, {}))
+    if hasattr(e, "n_components"):
+        out.append(("invalid n_components", {"n_components": "many"}, {}, {}))
+        out.append(("n_components = -1", {"n_components": -1}, {}, {}))
+    if est.startswith("ufpca"):
+        out.append(("duplicated keyword", {}, {}, {"method_smoothing": "LP", "kwargs_mean": {"method_smoothing": "PS"}}))
+    import copy
+
+    for key in ("data", "y"):
+        if key in ctx2:
+            bad = copy.deepcopy(ctx2[key])
+            arrs = U.arrays_of(bad)
+            big = [a for a in arrs if a.dtype.kind == "f" and a.size > 3]
+            if big:
+                big[-1].flat[1] = np.nan
+                out.append(("non-finite data", {}, {key: bad}, {}))
+    if "pen" in ctx2:
+        out.append(("invalid penalty", {}, {"pen": "heavy"}, {}))
+    return out
+
+
+def _refit(case):
+    est, seed = case["est"], case["seed"]
+    mk, ctx, steps, cls = _est_setup(est, seed)
+    alt = ctx.pop("alt", None) or {}
+    viol, recs = [], []
+    fit = steps[0][1]
+    entry = f"{cls}.fit"
+
+    def fitted():
+        e = mk()
+        np.random.seed(777)
+        c = dict(ctx)
+        c["scores"] = None
+        fit(e, c)
+        return e
+
+    ctx2 = dict(ctx)
+    ctx2.update(alt)
+    ctx2["scores"] = None
+
+    def check(e, before_state, before_apply, how, skip=()):
+        d = U.diff_paths(before_state, _state_of(e, skip))
+        if d:
+            viol.append(_viol("fitted_state_unchanged", entry, f"a refit that FAILED ({how}) changed the fitted estimator at {d[:3]}: it now mixes old and new state", ["failed_refit"]))
+            return
+        after_apply = _apply_results(e, ctx, steps)
+        if U.diff_paths([x for _, x in before_apply], [x for _, x in after_apply]):
+            viol.append(_viol("repeatable", entry, f"after a refit that FAILED ({how}) transform / inverse_transform / predict return other results than before", ["failed_refit"]))
+
+    # (1) naturally rejected configurations
+    try:
+        e0 = fitted()
+    except Exception as ex:  # noqa: BLE001
+        return dict(status="error:" + err_class(ex), viol=[], recs=[])
+    for label, attrs, cover, kw in _rejections(est, e0, ctx2):
+        e = fitted()
+        before_apply = _apply_results(e, ctx, steps)
+        saved = {k: getattr(e, k) for k in attrs}
+        skip = tuple(attrs) + tuple("_" + k for k in attrs)
+        before_state = _state_of(e, skip)
+        for k, v in attrs.items():
+            setattr(e, k, v)
+        c = dict(ctx2)
+        c.update(cover)
+        try:
+            np.random.seed(777)
+            if kw:
+                e.fit(c["data"], **kw)
+            else:
+                fit(e, c)
+            recs.append((label, "accepted"))
+            continue     # the configuration is accepted: nothing to check
+        except Exception as ex:  # noqa: BLE001
+            recs.append((label, err_class(ex)))
+        for k, v in saved.items():
+            setattr(e, k, v)
+        check(e, before_state, before_apply, f"{label}: {recs[-1][1]}", skip)
+    # (2) every internal step of the refit made to fail in turn
+    e = fitted()
+    with _FaultPatch(e) as fp:
+        try:
+            np.random.seed(777)
+            fit(e, dict(ctx2))
+        except Exception:  # noqa: BLE001
+            pass
+    labels = list(fp.labels)
+    T = len(labels)
+    krng = Rng(f"refit-{est}-{seed}")
+    # the first occurrence of every distinct label, then a sample of the rest
+    first = sorted({labels.index(l) for l in set(labels)})
+    rest = [k for k in range(T) if k not in first]
+    ks = (first + krng.sample(rest, min(len(rest), max(0, case.get("n_faults", 14) - len(first)))))[: max(case.get("n_faults", 14), len(first))]
+    for k in sorted(ks):
+        e = fitted()
+        before_apply = _apply_results(e, ctx, steps)
+        before_state = _state_of(e)
+        raised = None
+        with _FaultPatch(e, fail_at=k):
+            try:
+                np.random.seed(777)
+                fit(e, dict(ctx2))
+            except _Injected as ex:
+                raised = str(ex)
+            except Exception as ex:  # noqa: BLE001
+                raised = err_class(ex)
+        if raised is None:
+            continue
+        check(e, before_state, before_apply, f"internal call {k} `{labels[k]}` made to raise")
+    return dict(status="ok", n_fault_points=T, n_faults=len(ks), labels=sorted(set(labels)), rejections=recs, viol=_dedupe(viol))
 
 
 # ---- estimators ------------------------------------------------------------
@@ -1292,9 +1545,13 @@ def run_impl(case):
         out = _pair(case)
     elif case["kind"] == "shared":
         out = _shared(case)
+    elif case["kind"] == "refit":
+        out = _refit(case)
+    elif case["kind"] == "ctor":
+        out = _ctor(case)
     else:
         out = _est(case)
-    entry = out.get("entry") or (f"{_class_of(case['subject']).__name__}.{case['b'][0]}" if case["kind"] in ("pair", "shared") else f"{case.get('est')}")
+    entry = out.get("entry") or (f"{_class_of(case['subject']).__name__}.{case['b'][0]}" if case["kind"] in ("pair", "shared") else f"{case.get('est') or case.get('ctor')}")
     out["viol"] = list(out.get("viol", [])) + _function_state_violation(entry, state_before)
     return out
 
@@ -1388,6 +1645,16 @@ def nontrivial(case, impl):
     return digest(case)
 
 
+def _classify_extra(case, impl, tags):
+    if case["kind"] == "refit":
+        tags.append("refit:" + case["est"])
+        tags.append("refit_fault_points:" + str(impl.get("n_fault_points")))
+        for lab, res in impl.get("rejections", []):
+            tags.append(f"refit_rejection:{case['est']}:{lab}:{res}")
+    if case["kind"] == "ctor":
+        tags.append("ctor:" + case["ctor"] + ":" + impl.get("status", "?"))
+
+
 def classify(case, impl):
     tags = ["kind:" + case["kind"]]
     if "__crash__" in impl:
@@ -1401,6 +1668,8 @@ def classify(case, impl):
     elif case["kind"] in ("pair", "shared"):
         tags.append("subject:" + case["subject"])
         tags.append("pair_status:" + impl["status_a"].split(":")[0] + "/" + impl["status_b"].split(":")[0])
+    elif case["kind"] in ("refit", "ctor"):
+        _classify_extra(case, impl, tags)
     else:
         tags.append("est:" + case["est"])
         if "@" in case["est"]:
